@@ -699,7 +699,11 @@ class NetworkGraph(AbstractBaseIR):
             for i, (d, sidx) in enumerate(zip(delays, source_idx)):
                 var_delayed = f"past({var}, {d})" if d != 0 else var
                 if len(target_shape) < 1 or (len(target_shape) == 1 and target_shape[0] == 1):
-                    buffer_eqs.append(f"{var}_buffered{buffer_id} = {var_delayed}")
+                    if len(delays) == 1:
+                        buffer_eqs.append(f"{var}_buffered{buffer_id} = {var_delayed}")
+                    else:
+                        # a scalar source that is read with several delays: one buffer slot per delay
+                        buffer_eqs.append(f"index({var}_buffered{buffer_id}, {i}) = {var_delayed}")
                 else:
                     # slot i of the buffer belongs to the i-th (delay, source element) pair
                     buffer_eqs.append(f"index({var}_buffered{buffer_id}, {i}) = index({var_delayed}, {sidx})")
